@@ -132,7 +132,8 @@ func runC06(c *Ctx) {
 	}
 	paths := gcmPaths()
 	seal := func(cl string, key, nonce, aad, pt []byte, ts int) {
-		sreq := fmt.Sprintf("gcm.seal.spec %x %s %s %s %d", key, hexOrDash(nonce), hexOrDash(aad), hexOrDash(pt), ts)
+		args := fmt.Sprintf("%x %s %s %s %d", key, hexOrDash(nonce), hexOrDash(aad), hexOrDash(pt), ts)
+		req, sreq := "gcm.seal "+args, "gcm.seal.spec "+args
 		for _, p := range paths {
 			a, err := p.mk(key, len(nonce), ts)
 			if a == nil || err != nil {
@@ -141,8 +142,9 @@ func runC06(c *Ctx) {
 			ptc := append([]byte(nil), pt...)
 			impl := try(func() string { return "ok " + hexOrDash(a.Seal(nil, nonce, ptc, aad)) })
 			full := p.name + "/" + cl
-			c.Case("gcm.seal", full, false, sreq)
-			c.CheckSpec("gcm.seal", full, sreq, sreq, impl)
+			c.Case("gcm.seal", full, false, req)
+			// implementation / model of the fused algorithm (Model.GCM.seal) / SP 800-38D (Spec.GCM.sealGCM)
+			c.Check3("gcm.seal", full, req, sreq, impl)
 		}
 	}
 	key := parseHexNil("0123456789abcdeffedcba9876543210")
@@ -212,7 +214,8 @@ func runC07(c *Ctx) {
 	}
 	paths := gcmPaths()
 	open := func(cl string, key, nonce, aad, ct []byte, ts int) {
-		sreq := fmt.Sprintf("gcm.open.spec %x %s %s %s %d", key, hexOrDash(nonce), hexOrDash(aad), hexOrDash(ct), ts)
+		args := fmt.Sprintf("%x %s %s %s %d", key, hexOrDash(nonce), hexOrDash(aad), hexOrDash(ct), ts)
+		req, sreq := "gcm.open "+args, "gcm.open.spec "+args
 		for _, p := range paths {
 			a, err := p.mk(key, len(nonce), ts)
 			if a == nil || err != nil {
@@ -234,10 +237,11 @@ func runC07(c *Ctx) {
 				verdict = "ok"
 			}
 			full := p.name + "/" + cl + "/" + verdict
-			c.Case("gcm.open", full, false, sreq)
-			c.CheckSpec("gcm.open", full, sreq, sreq, impl)
+			c.Case("gcm.open", full, false, req)
+			// implementation / model of the fused algorithm (Model.GCM.open) / SP 800-38D (Spec.GCM.openGCM)
+			c.Check3("gcm.open", full, req, sreq, impl)
 			if verdict == "ok" && cl[:5] != "valid" {
-				c.Disagree(Disagreement{Kind: "impl!=spec", Class: full + "/forgery-accepted", Request: sreq, Impl: impl, Spec: "err", Stream: "gcm.open"})
+				c.Disagree(Disagreement{Kind: "impl!=spec", Class: full + "/forgery-accepted", Request: req, SpecReq: sreq, Impl: impl, Spec: "err", Stream: "gcm.open"})
 			}
 		}
 	}
